@@ -68,7 +68,7 @@ KxInit(cfg) ==
 (* ------------------------------------------------- confirmation values *)
 (* S1 = SB = Hash(02 || yV || inner), S2 = SA = Hash(03 || yV || inner),          *)
 (* inner = Hash(xV || ZA || ZB || x1 || y1 || x2 || y2): the inner hash is shared  *)
-(* (selftest KAT_Sm2Kx checks Tag against S!KxS1 / S!KxS2 and the standard).       *)
+(* (mc/MC_C08kat asserts Tag against S!KxS1 / S!KxS2 and the standard's values).   *)
 Inner(V, za, zb, RA, RB) == S!KxInner(V, za, zb, RA, RB)
 Tag(prefix, V, inner) == S!H!Hash(<<prefix>> \o F32(V[2]) \o inner)
 
@@ -199,7 +199,7 @@ Tamper(a, m) == /\ net' = <<m>>
 ReplaceR(kind) ==
   /\ net # <<>>
   /\ net[1].kind \in {"RA", "RB"}
-  /\ (kind \in WireKinds => net[1].R # Inf)
+  /\ (kind \in (WireKinds \cup {"offcurve", "wide"}) => net[1].R # Inf)      \* these start from a pair
   /\ Tamper([op |-> "replaceR", at |-> net[1].kind, kind |-> kind, pos |-> 0],
             [net[1] EXCEPT !.R = BadPoint(kind, @), !.wire = IF kind \in WireKinds THEN kind ELSE @])
 FlipConfirm(i) ==
